@@ -7,6 +7,8 @@ ID = "C12"
 TITLE = "Ocean floor extraction returns the deepest valid value of every water column"
 MC = {"quick": [("MC_Depth", "MC_Depth.cfg", 8)], "thorough": [("MC_Depth", "MC_Depth_thorough.cfg", 16)]}
 TRACE = ("Trace_Depth", "Trace_Depth.cfg")
+# the repository\'s own tests, recorded by harness/harvest_plugin.py, judged by the same trace specification
+ALSO = {"quick": [], "thorough": ["harness.props.hv12"]}
 REQUIRED = ["OceanFloor", "via-accessor", "via-function", "two-depth-coordinates", "dry-column", "attr-withheld",
             "cf1d", "cf2d", "shoc_simple", "shoc_standard", "arakawa", "ugrid"]
 RULE = ("one case = one dataset (every convention) with one or two depth coordinates of different length (every orientation "
